@@ -226,9 +226,13 @@ where
                                             );
                                         },
                                         Message::Data(data) => {
-                                            if taken.load(AtomicOrdering::Acquire) < max {
-                                                let taken =
-                                                    taken.fetch_add(1, AtomicOrdering::AcqRel) + 1;
+                                            // claim one of the `max` slots atomically: deliveries may race
+                                            if let Ok(taken) = taken.fetch_update(
+                                                AtomicOrdering::AcqRel,
+                                                AtomicOrdering::Acquire,
+                                                |taken| (taken < max).then(|| taken + 1),
+                                            ) {
+                                                let taken = taken + 1;
                                                 call!(
                                                     sink,
                                                     Message::Data(data),
